@@ -341,7 +341,9 @@ def cond_programs(draw):
                          draw(st.integers(0, 1))])
             tag += 1
             body.append(['log', tag])
-        routines[f'w{i}'] = {'body': body}
+        # the waiter may be nested inside the routine that is played
+        routines[f'w{i}'] = {'body': body,
+                             'nest': draw(st.sampled_from([0, 0, 1, 2]))}
         top.append(['play', f'w{i}', draw(st.sampled_from(refs)), 0])
     for i in range(na):
         body = []
@@ -406,6 +408,8 @@ def run_cond(p, v):
                 waits[(op[0], op[1])] = waits.get((op[0], op[1]), 0) + 1
     multi = any(n >= 2 for n in waits.values())
     labels = ['two_waiters'] if multi else []
+    if any(r.get('nest') for r in p['routines'].values()):
+        labels.append('nested_waiter')
     if any(x[0] == 'rebind_refused' for x in exp):
         labels.append('rebind')
     return {'nontrivial': multi, 'labels': labels}
